@@ -273,8 +273,60 @@ pub fn c19k_stars(i: &mut In, _p: &[i64]) {
   std::mem::forget(ts);
 }
 
+/// 19.l  eight-character derived signs on symbolic pillars (built by index, no names in):
+///   part 0 foetal origin = month stem + 1, month branch + 3;  part 1 foetal breath = the pillar combining with the day
+///   pillar (stem five-combination, branch six-combination);  part 2 own sign (命宫): counting 寅 = 1 .. 丑 = 12, month number
+///   + hour number + sign number = 14 or 26, stem by the Five-Tigers rule from the year stem;  part 3 body sign (身宫):
+///   month number + hour number counted from 子 ... (same stem rule).  Only legal pillars go in.  p = [part, year stem]
+pub fn c19l_eight_char(i: &mut In, p: &[i64]) {
+  use tyme4rs::tyme::eightchar::EightChar;
+  // parts 2 / 3 depend on the year stem, the month branch and the hour branch only: the year pillar is fixed per job
+  // (p[1] = 0..9, pillar index = stem index), month and hour range over the twelve branches (pillars 0..11), day fixed
+  let (y, m, d, h) = if p[0] >= 2 { (p[1], i.int(0, 11), 0, i.int(0, 11)) } else if p[0] == 0 { (0, i.int(0, 59), 0, 0) } else { (0, 0, i.int(0, 59), 0) };
+  let ec = EightChar::from_sixty_cycle(SixtyCycle::from_index(y as isize), SixtyCycle::from_index(m as isize), SixtyCycle::from_index(d as isize), SixtyCycle::from_index(h as isize));
+  let tiger = |ys: i64, branch: i64| -> i64 { md((ys % 5) * 2 + 2 + md(branch - 2, 12), 10) };
+  if p[0] == 0 {
+    let r = ec.get_fetal_origin();
+    assert!(r.get_heaven_stem().get_index() as i64 == md(m % 10 + 1, 10) && r.get_earth_branch().get_index() as i64 == md(m % 12 + 3, 12));
+    std::mem::forget(r);
+  } else if p[0] == 1 {
+    let r = ec.get_fetal_breath();
+    let (ds, db) = (d % 10, d % 12);
+    let (mut es, mut eb) = (-1, -1);
+    let mut k = 0;
+    while k < 6 {
+      if k < 5 { let (a, b, _) = FIVE_COMBINE[k]; if ds == a { es = b; } if ds == b { es = a; } }
+      let (a, b, _) = SIX_COMBINE[k]; if db == a { eb = b; } if db == b { eb = a; }
+      k += 1;
+    }
+    assert!(r.get_heaven_stem().get_index() as i64 == es && r.get_earth_branch().get_index() as i64 == eb);
+    std::mem::forget(r);
+  } else if p[0] == 2 {
+    let r = ec.get_own_sign();
+    // numbers counted from 寅 = 1
+    let mn = md(m % 12 - 2, 12) + 1;
+    let hn = md(h % 12 - 2, 12) + 1;
+    let sum = mn + hn;
+    let sign_no = if sum < 14 { 14 - sum } else { 26 - sum };
+    let branch = md(sign_no - 1 + 2, 12);
+    assert!(r.get_earth_branch().get_index() as i64 == branch);
+    assert!(r.get_heaven_stem().get_index() as i64 == tiger(y % 10, branch));
+    witness!(sum == 14, "month and hour numbers add up to exactly 14");
+    std::mem::forget(r);
+  } else {
+    let r = ec.get_body_sign();
+    // 身宫: from 寅 as the first month count forward to the birth month, then onward by the hour counted from 子
+    let branch = md(2 + md(m % 12 + h % 12 - 1, 12), 12);
+    assert!(r.get_earth_branch().get_index() as i64 == branch);
+    assert!(r.get_heaven_stem().get_index() as i64 == tiger(y % 10, branch));
+    std::mem::forget(r);
+  }
+  std::mem::forget(ec);
+}
+
 pub fn registry() -> Vec<(&'static str, Body)> {
   vec![
+    ("c19::c19l_eight_char", c19l_eight_char as Body),
     ("c19::c19a_stem_basic", c19a_stem_basic as Body), ("c19::c19b_terrain", c19b_terrain), ("c19::c19c_ten_star", c19c_ten_star),
     ("c19::c19d_stem_combine", c19d_stem_combine), ("c19::c19e_branch_basic", c19e_branch_basic), ("c19::c19f_hidden", c19f_hidden),
     ("c19::c19g_branch_relations", c19g_branch_relations), ("c19::c19h_pillar", c19h_pillar), ("c19::c19i_element", c19i_element),
